@@ -31,6 +31,8 @@ def canonical(mods, modname, func):
     canon.FOREIGN_INLINED.clear()
     canon.FOREIGN.clear()
     canon.FOREIGN.update(canon.build_foreign(trees, set()))
+    from .nullness import Nullness
+    canon.NULLNESS = Nullness(trees)
     for name, t in trees.items():
         canon.canonicalise(t, name, set(), {}, [])
     canon.drop_dead_foreign(trees)
@@ -224,6 +226,27 @@ case("listbuild kept: the list escapes before the last append", {"m": "def f(g, 
 
 case("lencomp fires: counting a filtered list", {"m": "def f(d):\n    return len([q for r in d.values() for q in r.values() if not q.empty()])\n"}, "m", "f", has=["sum((1 for r in"], lacks=["len("])
 case("lencomp kept: the element is a call", {"m": "def f(d, g):\n    return len([g(q) for q in d])\n"}, "m", "f", has=["len("])
+
+# -- IFFLAG on a value-or-None result (sa/nullness.py) --------------------------------------------------------------------------------------------
+_VN = "class A(object):\n    def _src(self, r):\n        c, d = r()\n        return c, bytes(d)\n    def _h(self, r, s):\n        c, d = self._src(r)\n        if c == 1:\n            s(c)\n            return None\n        return d\n"
+case("value-or-None helper: `is None` decided in each arm (the value is never None)", {"m": _VN + "    def f(self, r, s):\n        while True:\n            x = self._h(r, s)\n            if x is None:\n                return\n            yield x\n"},
+     "m", "f", has=["s(_i", "yield _i"], lacks=["is None"])
+case("value-or-None helper kept: the value may itself be None", {"m": _VN.replace("return c, bytes(d)", "return c, d") + "    def f(self, r, s):\n        while True:\n            x = self._h(r, s)\n            if x is None:\n                return\n            yield x\n"},
+     "m", "f", has=["is None"])
+case("value-or-None helper kept: the caller tests truthiness (an empty value is not None)", {"m": _VN + "    def f(self, r, s):\n        while True:\n            x = self._h(r, s)\n            if not x:\n                return\n            yield x\n"},
+     "m", "f", has=["if not "])
+
+case("a literal store right before `return` is dropped", {"m": "def f(g, x):\n    v = g()\n    if x:\n        v = None\n        return 0\n    return v\n"}, "m", "f", lacks=["v = None"])
+case("literal store before return kept: a finally block reads it", {"m": "def f(g, x, h):\n    v = g()\n    try:\n        if x:\n            v = None\n            return 0\n        return 1\n    finally:\n        h(v)\n"}, "m", "f", has=["v = None"])
+case("priming call with a literal where the loop passes the variable", {"m": "class A(object):\n    def f(self, d):\n        i = self.w(d, 0)\n        while i is not None:\n            self.t()\n            i = self.w(d, i)\n"}, "m", "f", has=["i = 0", "while True"])
+case("priming call kept: two arguments differ", {"m": "class A(object):\n    def f(self, d):\n        i = self.w(1, 0)\n        while i is not None:\n            self.t()\n            i = self.w(d, i)\n"}, "m", "f", has=["self.w(1, 0)"])
+
+# -- COPYINOUT ----------------------------------------------------------------------------------------------------------------------------------
+_CIO = "class A(object):\n    def _w(self, d, i):\n        i += self.t(d[i:])\n        return i if i < len(d) else None\n"
+case("copy-in / copy-out of an updated helper parameter works on the variable itself", {"m": _CIO + "    def f(self, d):\n        i = 0\n        while True:\n            i = self._w(d, i)\n            if i is None:\n                return\n            self.c(i)\n"},
+     "m", "f", has=["i += self.t(d[i:])"], lacks=["_i1_i", "is None"])
+case("copy-in / copy-out kept: the function has a try statement", {"m": _CIO + "    def f(self, d):\n        i = 0\n        while True:\n            try:\n                i = self._w(d, i)\n            except ValueError:\n                self.c(i)\n            if i is None:\n                return\n"},
+     "m", "f", has=["_i1_i"])
 
 
 def main():
